@@ -164,7 +164,7 @@ def explore_config(case):
     numapi.check_composed(res, B, [], selx[:14], case, "config", firsts=["neg", "exp"], seconds=["exp", "wedge", "to_Matrix", "inverse"])
     numapi.check_aliasing(res, B, [], selx[:14], case, "config", ("exp", "wedge", "exp_to_Matrix"))
     numapi.check_symbol_names(res, B, [], selx[:6], case, "config", ("exp", "wedge"))
-    numapi.check_threads(res, B, [], selx[1:3], case, "config", ("exp",))
+    numapi.check_threads(res, B, [], numapi.generic_pair(selx), case, "config", ("exp",))
     numapi.check_spellings(res, B, [], selx[:8], case, "config")
     numapi.check_algebra_arithmetic(res, B, selx, case, "config")
     # ---- one-parameter words ------------------------------------------------------------------
